@@ -4,25 +4,31 @@ import AioslskVerif.Proofs.Conn
 # C11 — connecting to a peer succeeds iff a path works, and leaves nothing behind
 
 Property theorems only (models: `Model/PeerConnect.lean`, `Model/Conn.lean`; helpers: `Proofs/PeerConnect.lean`,
-`Proofs/Conn.lean`).  The model is the code **with** `fixes/C10-connect-cancel-or-closed.patch` and
-`fixes/C11-attempt-cleanup.patch` applied.
+`Proofs/Conn.lean`).  The model is the code **with** `fixes/C10-connect-cancel-or-closed.patch`,
+`fixes/C11-attempt-cleanup.patch`, `fixes/C11-pierce-coincidence.patch`, `fixes/C11-listener-windows.patch`,
+`fixes/C11-disconnect-cancel-safe.patch` and `fixes/C11-race-cancel-orphan.patch` applied.
 
 `run mode lookup srvFail ops` is the state of one `create_peer_connection` request, in fallback or race
 mode, with or without an address look-up, with the ConnectToPeer write succeeding or failing, after any
 list of completions in any order — address reply (valid / none / no port), connect ok with PeerInit written
 / PeerInit write failing / refused / timeout, a peer piercing with the ticket, CannotConnect, the 60 s
-timer, cancellation of the request — including completions that arrive after the request has finished.
-Every such state is a quiescent point.
+timer, cancellation of the request, **and `note n`: the application listeners of notification `n`
+(CONNECTING / CONNECTED / PeerInitializedEvent / CLOSING / CLOSED of the outgoing connection, of the
+connection being accepted, of the winner being closed) have returned** — including completions that arrive
+after the request has finished.  Between a notification and its `note` the task that emitted it is suspended
+inside a listener; every other op may come in between, so the theorems cover every completion and every
+cancellation landing while any listener invocation along the connect paths is suspended.
 -/
 namespace AioslskVerif.C11
 open AioslskVerif.PeerConnect
 
-/-- The request returns the direct (indirect) connection exactly when the direct (indirect) attempt
-succeeded, and what it returns is registered, open and initialised. -/
+/-- The request returns the direct connection exactly when the direct attempt succeeded, and the pierced
+connection exactly when the indirect attempt succeeded and the (cancelled) direct attempt has finished closing
+its connection; what it returns is registered, open and initialised. -/
 theorem C11_returns_iff (m : Mode) (l f : Bool) (ops : List Op) :
     let s := run m l f ops
-    (s.res = .returnedD ↔ s.d = .ok) ∧ (s.res = .returnedI ↔ s.i = .ok) ∧
-      (s.d = .ok → s.dc = .open) ∧ (s.i = .ok → s.ic = true) :=
+    (s.res = .returnedD ↔ s.d = .ok) ∧ (s.res = .returnedI ↔ (s.i = .ok ∧ s.d ≠ .cClosing ∧ s.d ≠ .cClosed)) ∧
+      (s.d = .ok → s.dc = .open ∧ s.ps = true) ∧ (s.i = .ok → s.ic = true) :=
   (good_facts (good_run m l f ops)).1
 
 /-- It raises `PeerConnectionError` exactly when both attempts failed; in fallback mode the indirect
@@ -33,24 +39,65 @@ theorem C11_raises_otherwise (m : Mode) (l f : Bool) (ops : List Op) :
       (s.mode = .fallback → s.i ≠ .notStarted → s.d = .failed) :=
   (good_facts (good_run m l f ops)).2.1
 
-/-- Once the request has returned, raised or been cancelled — and whatever arrives afterwards — no waiter
-for the ticket, for CannotConnect or for the address remains, no attempt is still running, and the only
-registered / open connection the request created is the one it returned. -/
+/-- Once the request has returned, raised or been cancelled — wherever the deciding completion or the
+cancellation landed, also inside a listener, and whatever arrives afterwards — no waiter for the ticket, for
+CannotConnect or for the address remains, neither attempt is still running or closing anything, and the only
+registered / open connection the request created is the one it returned: the loser's is closed and
+unregistered. -/
 theorem C11_no_leftovers (m : Mode) (l f : Bool) (ops : List Op) :
     let s := run m l f ops
     s.res ≠ .pending →
       s.tw = false ∧ s.rw = false ∧ s.aw = false ∧
       (s.dc ≠ .none → s.res = .returnedD ∧ s.dc = .open) ∧ (s.ic = true → s.res = .returnedI) ∧
-      s.d ≠ .addr ∧ s.d ≠ .opening ∧ s.i ≠ .waiting :=
+      dRunning s.d = false ∧ s.i ≠ .waiting ∧ s.i ≠ .wClosing ∧ s.i ≠ .wClosed :=
   (good_facts (good_run m l f ops)).2.2.1
 
-/-- A finished request stays finished: later completions (late pierce, late CannotConnect, …) do not
-change what it returned. -/
+/-- A finished request stays finished: later completions (late pierce, late CannotConnect, listeners
+returning, …) do not change what it returned. -/
 theorem C11_result_final (m : Mode) (l f : Bool) (ops : List Op) (op : Op)
     (h : (run m l f ops).res ≠ .pending) : (run m l f (ops ++ [op])).res = (run m l f ops).res := by
   have hrun : run m l f (ops ++ [op]) = stepT (run m l f ops) op := by simp [run, List.foldl_append]
   rw [hrun]
-  exact (good_facts (good_run m l f ops)).2.2.2 h op (mem_allOp op)
+  exact (good_facts (good_run m l f ops)).2.2.2.1 h op (mem_allOp op)
+
+/-- Listeners cannot wedge a request.  From any reachable state, once every outstanding listener invocation
+has returned (`drainOps`: one acknowledgement per notification, no other completion): no notification is
+outstanding and no accepted connection is half-handled; a request that had finished is unchanged; a request
+whose cancellation was requested has ended as cancelled; and a request that is still pending is waiting for the
+environment — the address, the connect outcome, or the peer / the server / the 60 s timer. -/
+theorem C11_listeners_return (m : Mode) (l f : Bool) (ops : List Op) :
+    let s := run m l f ops
+    let t := run m l f (ops ++ drainOps)
+    settled t = true ∧ (s.res ≠ .pending → t.res = s.res) ∧ (s.cr = true → t.res = .cancelled) ∧
+      (t.res = .pending → t.d = .addr ∨ t.d = .opening ∨ t.i = .waiting) := by
+  have h := (good_facts (good_run m l f ops)).2.2.2.2
+  simp only [Drains, DrainsTo, drain] at h
+  simpa only [run_append] using h
+
+/-- Cancellation of the request — delivered at any point, e.g. while a listener is being told CONNECTED, or while
+the race is waiting for the loser to close — leaves nothing behind: once the listeners have returned the request
+has ended as cancelled, nothing it created is registered or open, and no waiter remains. -/
+theorem C11_cancel_leaves_nothing (m : Mode) (l f : Bool) (ops : List Op) (h : (run m l f ops).cr = true) :
+    let t := run m l f (ops ++ drainOps)
+    t.res = .cancelled ∧ t.dc = .none ∧ t.ic = false ∧ t.a = .none ∧ t.tw = false ∧ t.rw = false ∧ t.aw = false := by
+  intro t
+  have hd := C11_listeners_return m l f ops
+  have hres : t.res = .cancelled := hd.2.2.1 h
+  have hset : settled t = true := hd.1
+  have hn := C11_no_leftovers m l f (ops ++ drainOps) (by show t.res ≠ .pending; rw [hres]; decide)
+  obtain ⟨h1, h2, h3, h4, h5, _⟩ := hn
+  have ha : t.a = .none := by
+    have := hset
+    simp only [settled, Bool.and_eq_true, beq_iff_eq] at this
+    exact this.1.1.2
+  refine ⟨hres, ?_, ?_, ha, h1, h2, h3⟩
+  · cases hdc : t.dc with
+    | none => rfl
+    | connecting => exact absurd (h4 (by show t.dc ≠ .none; rw [hdc]; decide)).1 (by show t.res ≠ .returnedD; rw [hres]; decide)
+    | «open» => exact absurd (h4 (by show t.dc ≠ .none; rw [hdc]; decide)).1 (by show t.res ≠ .returnedD; rw [hres]; decide)
+  · cases hic : t.ic with
+    | false => rfl
+    | true => exact absurd (h5 hic) (by show t.res ≠ .returnedI; rw [hres]; decide)
 
 /-- `select_port` returns an available port whenever one exists, of the kind it says, and the preferred
 kind when both exist. -/
@@ -76,24 +123,46 @@ theorem C11_connect_back (ops : List Conn.Op) (c : Conn.Conn) (hc : c ∈ (Conn.
 
 /-! Non-vacuity -/
 
--- race: the direct attempt wins while the indirect one waits; both waiters are gone; a late pierce changes nothing
-example : (run .race false false [.connectOk true, .pierce]) =
-    { mode := .race, srvFail := false, d := .ok, i := .cancelled, dc := .open, ic := false, tw := false, rw := false,
-      aw := false, res := .returnedD } := by decide
--- race: the peer pierces while the direct attempt is still parked in open_connection: the loser is closed
-example : (run .race false false [.pierce]) =
-    { mode := .race, srvFail := false, d := .cancelled, i := .ok, dc := .none, ic := true, tw := false, rw := false,
-      aw := false, res := .returnedI } := by decide
+-- race: the direct attempt wins (no listener suspends: each notification is acknowledged at once) while the indirect
+-- one waits; both waiters are gone; a late pierce is accepted, found unowned and closed again
+example : (run .race false false [.note .dConnecting, .connectOk true, .note .dConnected, .note .dInit, .pierce,
+      .note .aConnected, .note .aClosing, .note .aClosed]) =
+    { mode := .race, srvFail := false, cr := false, d := .ok, i := .cancelled, a := .none, dc := .open, ic := false,
+      ps := true, tw := false, rw := false, aw := false, res := .returnedD } := by decide
+-- race, the class of seeded/C11-f: the peer pierces while listeners are being told that the direct socket is CONNECTED:
+-- the direct attempt is cancelled inside that listener and closes its connection (CLOSING, CLOSED notifications)
+example : (run .race false false [.note .dConnecting, .connectOk true, .pierce, .note .aConnected, .note .aInit]) =
+    { mode := .race, srvFail := false, cr := false, d := .cClosing, i := .ok, a := .none, dc := .open, ic := true,
+      ps := false, tw := false, rw := false, aw := false, res := .pending } := by decide
+example : (run .race false false [.note .dConnecting, .connectOk true, .pierce, .note .aConnected, .note .aInit,
+      .note .dClosing, .note .dClosed]) =
+    { mode := .race, srvFail := false, cr := false, d := .cancelled, i := .ok, a := .none, dc := .none, ic := true,
+      ps := false, tw := false, rw := false, aw := false, res := .returnedI } := by decide
+-- race: the request is cancelled while the loser is being closed (the `gather`): the winner is closed as well
+example : (run .race false false [.note .dConnecting, .pierce, .note .aConnected, .note .aInit, .cancelRequest,
+      .note .dClosed]) =
+    { mode := .race, srvFail := false, cr := true, d := .cancelled, i := .wClosing, a := .none, dc := .none, ic := true,
+      ps := false, tw := false, rw := false, aw := false, res := .pending } := by decide
+-- the 60 s timer fires while listeners are being told that the pierced connection is initialised: the request raises,
+-- the accept task finds the waiter gone and closes the connection
+example : (run .fallback false false [.note .dConnecting, .connectRefused, .note .dClosing, .note .dClosed, .pierce,
+      .note .aConnected, .indirectTimeout, .note .aInit]) =
+    { mode := .fallback, srvFail := false, cr := false, d := .failed, i := .failed, a := .nClosing, dc := .none,
+      ic := false, ps := false, tw := false, rw := false, aw := false, res := .raised } := by decide
 -- fallback with look-up: no address → indirect → CannotConnect → raised, nothing left
 example : (run .fallback true false [.addrReply .noAddr, .cannotConnect]) =
-    { mode := .fallback, srvFail := false, d := .failed, i := .failed, dc := .none, ic := false, tw := false, rw := false,
-      aw := false, res := .raised } := by decide
+    { mode := .fallback, srvFail := false, cr := false, d := .failed, i := .failed, a := .none, dc := .none, ic := false,
+      ps := false, tw := false, rw := false, aw := false, res := .raised } := by decide
 -- fallback: ConnectToPeer cannot be written → raised, both waiters cleared
-example : (run .fallback false true [.connectRefused]).res = .raised ∧ (run .fallback false true [.connectRefused]).tw = false := by
+example : (run .fallback false true [.note .dConnecting, .connectRefused, .note .dClosing, .note .dClosed]).res = .raised ∧
+    (run .fallback false true [.note .dConnecting, .connectRefused, .note .dClosing, .note .dClosed]).tw = false := by
   decide
 -- a pending request with live waiters exists (the hypotheses above are not vacuous)
 example : (run .race true false []).tw = true ∧ (run .race true false []).aw = true ∧ (run .race true false []).res = .pending := by
   decide
+-- a cancelled request whose direct attempt is still inside a listener exists (hypothesis of C11_cancel_leaves_nothing)
+example : (run .fallback false false [.cancelRequest]).cr = true ∧ (run .fallback false false [.cancelRequest]).d = .cClosing ∧
+    (run .fallback false false [.cancelRequest]).res = .pending := by decide
 -- connect-back that is refused reports CannotConnect
 example : (Conn.run [.new .back false false, .at 0 .connectFail]).conns.map (fun c => (c.k.att, c.evs)) =
     [(.idle, [.st .connecting .unknown, .st .closing .connectFailed, .st .closed .connectFailed, .attRes .fail, .cc])] := by
